@@ -805,7 +805,16 @@ func (d *DotGit) DeleteOldObjectPackAndIndex(hash plumbing.Hash, t time.Time) er
 func (d *DotGit) NewObject() (*ObjectWriter, error) {
 	d.cleanObjectList()
 
-	return newObjectWriter(d.fs, d.options.ObjectFormat)
+	w, err := newObjectWriter(d.fs, d.options.ObjectFormat)
+	if err != nil {
+		return nil, err
+	}
+
+	// The object only exists once the writer is closed: an object list built
+	// while the writer was open does not contain it.
+	w.saved = d.cleanObjectList
+
+	return w, nil
 }
 
 // ObjectsWithPrefix returns the hashes of objects that have the given prefix.
